@@ -31,11 +31,25 @@ pub enum Impostor {
     Own,
 }
 
+/// A known-peer entry with affinity High: node `from` is told that identity `claimed` lives at
+/// address `addr` and keeps dialing it in the background (the dial names the identity).
+#[derive(Clone, Debug, Serialize, Deserialize, PartialEq, Eq, Hash)]
+pub struct Known {
+    pub from: u8,
+    pub addr: u8,
+    pub claimed: u8,
+}
+
 #[derive(Clone, Debug, Serialize, Deserialize, PartialEq, Eq, Hash)]
 pub struct Case {
     pub nodes: u8,
     pub impostor: Option<Impostor>,
     pub dials: Vec<Dial>,
+    #[serde(default)]
+    pub known: Vec<Known>,
+    /// max_concurrent_connections on every node
+    #[serde(default)]
+    pub limit: Option<u8>,
     pub faults: Vec<FaultSeg>,
     pub fault_seed: u64,
     pub link_delay_ms: u8,
@@ -48,7 +62,12 @@ pub fn check(case: &Case, obs: &mut Obs) -> Result<(), Fail> {
         let mut nodes = Vec::new();
         let mut subs = Vec::new();
         for i in 0..n {
-            let node = sim.node(i)?;
+            let mut spec = NodeSpec::new(i);
+            spec.config.max_concurrent_connections = case.limit.map(|l| l as usize);
+            spec.config.connectivity_check_interval_ms = Some(250);
+            spec.config.connection_backoff_ms = Some(100);
+            spec.config.max_connection_backoff_ms = Some(300);
+            let node = sim.node_with(spec)?;
             let (rx, snap) = node.net.subscribe().map_err(|e| Fail::Inconclusive(e.to_string()))?;
             vensure!(snap.is_empty(), "c03:fresh-network-has-peers", "a fresh network lists peers");
             subs.push(rx);
@@ -93,6 +112,14 @@ pub fn check(case: &Case, obs: &mut Obs) -> Result<(), Fail> {
 
         sim.fabric.set_faults(case.faults.clone());
         let any_fault = case.faults.iter().any(|f| f.loss_pm > 0 || f.partition);
+        // --- known-peer entries (background dials naming an identity)
+        let mut known = Vec::new();
+        for k in &case.known {
+            let (from, to, claimed) = (k.from % n, k.addr % n_addr, k.claimed % n_addr);
+            if from == to || claimed == from { continue; }
+            nodes[from as usize].net.known_peers().insert(anemo::types::PeerInfo { peer_id: identity(claimed), affinity: anemo::types::PeerAffinity::High, address: vec![addr_of(to).into()] });
+            known.push((from, to, identity(claimed)));
+        }
         // --- run the dials
         let mut handles = Vec::new();
         let mut plan = Vec::new();
@@ -122,7 +149,7 @@ pub fn check(case: &Case, obs: &mut Obs) -> Result<(), Fail> {
         for h in handles {
             results.push(h.await.map_err(|e| Fail::Inconclusive(format!("dial task: {e}")))?);
         }
-        sleep_ms(300).await;
+        sleep_ms(if known.is_empty() { 300 } else { 1500 }).await;
         // every NewPeer each node has ever seen
         let mut ever: Vec<HashSet<PeerId>> = vec![HashSet::new(); n as usize];
         for (i, rx) in subs.iter_mut().enumerate() {
@@ -142,6 +169,16 @@ pub fn check(case: &Case, obs: &mut Obs) -> Result<(), Fail> {
                 legit.insert((*to, *from));
             }
         }
+        let mut n_bg_mismatch = 0;
+        for (from, to, claimed) in &known {
+            if *claimed == identity(*to) && (*to < n || z_can_prove_own) {
+                legit.insert((*from, *to));
+                legit.insert((*to, *from));
+            } else {
+                n_bg_mismatch += 1;
+            }
+        }
+        let raced_by_background = |from: u8, to: u8| known.iter().any(|(f, t, _)| (*f == from && *t == to) || (*f == to && *t == from));
         let (mut n_mismatch, mut n_ok, mut n_err) = (0, 0, 0);
         for ((from, to, expect), (res, listed_at_return)) in plan.iter().zip(results.iter()) {
             let me = &nodes[*from as usize];
@@ -159,7 +196,7 @@ pub fn check(case: &Case, obs: &mut Obs) -> Result<(), Fail> {
                 }
                 Ok(Err(e)) => {
                     n_err += 1;
-                    vensure!(mismatch || any_fault || concurrent_same_target(&plan, *from, *to), "c03:legit-dial-failed", "node {from} dialed address {to} expecting {:?} (truth {truth}) without faults and failed: {e}", expect);
+                    vensure!(mismatch || any_fault || concurrent_same_target(&plan, *from, *to) || raced_by_background(*from, *to) || case.limit.is_some(), "c03:legit-dial-failed", "node {from} dialed address {to} expecting {:?} (truth {truth}) without faults and failed: {e}", expect);
                 }
             }
         }
@@ -193,8 +230,10 @@ pub fn check(case: &Case, obs: &mut Obs) -> Result<(), Fail> {
         obs.evals(plan.len() as u64);
         obs.label(format!("dials ok={} err={} mismatched={}", (n_ok > 0) as u8, (n_err > 0) as u8, (n_mismatch > 0) as u8));
         if has_z { obs.label("impostor-present"); }
+        if n_bg_mismatch > 0 { obs.label("background-dial-to-address-of-another-identity"); }
+        if case.limit.is_some() { obs.label("connection-limit-configured"); }
         let st = sim.fabric.stats();
-        if n_mismatch > 0 || has_z || st.dropped_fault > 0 {
+        if n_mismatch > 0 || n_bg_mismatch > 0 || has_z || st.dropped_fault > 0 {
             obs.nontrivial(&case);
         }
         Ok(())
@@ -211,15 +250,18 @@ impl Part for Dials {
     type Case = Case;
     fn name(&self) -> &'static str { "dials" }
     fn rule(&self) -> &'static str {
-        "2-5 honest networks plus an optional impostor (raw QUIC endpoint answering at its own address with a replayed certificate of node k, with [own, replayed], or honestly); 1-8 dials connect(addr) / connect_with_peer_id(addr, e) with e equal or unequal to the identity at addr, generated start offsets (many equal => concurrent dials of one address with different expectations), loss bursts bounded to the first seconds; oracle: Ok(p) => p == key holder at addr (== e if given) and p was in the caller's connected set (NewPeer seen or listed at return); identity(addr) != e => Err; pairs with only mismatched dials between them never list, announce or serve each other; a replayed identity never shows up; Err always allowed under loss; self-dials excluded (counted); non-trivial = a mismatched dial, an impostor, or a lost handshake datagram; distinct by case"
+        "2-5 honest networks plus an optional impostor (raw QUIC endpoint answering at its own address with a replayed certificate of node k, with [own, replayed], or honestly); 1-8 dials connect(addr) / connect_with_peer_id(addr, e) with e equal or unequal to the identity at addr, generated start offsets 0-3 s (many equal => concurrent dials of one address with different expectations; late ones => dials made while already connected), 0-2 High-affinity known-peer entries claiming an identity at an address (background dials naming it, right or wrong), optionally max_concurrent_connections 0-2 on every node, loss bursts bounded to the first seconds; oracle: Ok(p) => p == key holder at addr (== e if given) and p was in the caller's connected set (NewPeer seen or listed at return); identity(addr) != e => Err; pairs with only mismatched dials between them never list, announce or serve each other; a replayed identity never shows up; Err always allowed under loss, with a connection limit, or when dials race; self-dials excluded (counted); non-trivial = a mismatched explicit or background dial, an impostor, or a lost handshake datagram; distinct by case"
     }
     fn strategy(&self, _t: Tier) -> BoxedStrategy<Case> {
-        let dial = (0u8..5, 0u8..6, prop::option::weighted(0.7, 0u8..6), prop_oneof![3 => Just(0u16), 2 => 0u16..10, 1 => 10u16..400])
+        let dial = (0u8..5, 0u8..6, prop::option::weighted(0.7, 0u8..6), prop_oneof![3 => Just(0u16), 2 => 0u16..10, 2 => 10u16..400, 1 => 400u16..3000])
             .prop_map(|(from, to, expect, start_ms)| Dial { from, to, expect, start_ms });
         let imp = prop_oneof![2 => Just(None), 2 => (0u8..5).prop_map(|k| Some(Impostor::Replay(k))), 1 => (0u8..5).prop_map(|k| Some(Impostor::OwnPlusReplay(k))), 1 => Just(Some(Impostor::Own))];
         let fault = (0u64..300, 50u64..1500, 50u16..500).prop_map(|(t0, len, loss_pm)| FaultSeg { t0_ms: t0, t1_ms: t0 + len, loss_pm, ..Default::default() });
-        (2u8..6, imp, prop::collection::vec(dial, 1..9), prop::collection::vec(fault, 0..2), any::<u64>(), 1u8..25)
-            .prop_map(|(nodes, impostor, dials, faults, fault_seed, link_delay_ms)| Case { nodes, impostor, dials, faults, fault_seed, link_delay_ms })
+        let known = (0u8..5, 0u8..6, 0u8..6).prop_map(|(from, addr, claimed)| Known { from, addr, claimed });
+        let known = prop_oneof![3 => Just(Vec::new()), 2 => prop::collection::vec(known, 1..3)];
+        let limit = prop_oneof![4 => Just(None), 1 => (0u8..3).prop_map(Some)];
+        (2u8..6, imp, prop::collection::vec(dial, 1..9), prop::collection::vec(fault, 0..2), any::<u64>(), 1u8..25, known, limit)
+            .prop_map(|(nodes, impostor, dials, faults, fault_seed, link_delay_ms, known, limit)| Case { nodes, impostor, dials, known, limit, faults, fault_seed, link_delay_ms })
             .boxed()
     }
     fn run(&self, c: &Case, obs: &mut Obs) -> Result<(), Fail> { check(c, obs) }
